@@ -107,6 +107,11 @@ func (w *Writer) writeFileConfig(res *Result) {
 		if cfg.File {
 			// Omit internal config.
 			fmt.Fprintf(&w.buf, "%s: %s\n", key, cfg.Value)
+		} else if have.File {
+			// The key was written as file config and is now
+			// internal. Delete it from the output so a reader
+			// doesn't keep the stale file value.
+			fmt.Fprintf(&w.buf, "%s:\n", key)
 		}
 		have.Value = append(have.Value[:0], cfg.Value...)
 		have.File = cfg.File
